@@ -108,7 +108,7 @@ def run(chk):
         n, ma = params[c]["n"], params[c]["max_attempts"]
         scheds = _schedules(g)
         n_all = len(scheds)
-        cap = chk.pick(1800, 2500 if c == "quick" else 7000)
+        cap = chk.pick(1200, 2500 if c == "quick" else 7000)
         if len(scheds) > cap:
             # a seeded sample that never loses the fault-heavy schedules
             scheds.sort(key=lambda s: -sum(1 for x in s["schedule"] if x[0] in ("drop", "arm")))
@@ -163,7 +163,7 @@ def run(chk):
                 cfg = {"n": n, "hidden": hidden, "base": base, "cursor": cursor}
                 size = drv.body_length(cfg, cursor)
                 for ma, fail_first in ((1, 0), (2, 2), (1, 2)):
-                    step = 1 if (ma, fail_first) == (1, 0) else chk.pick(11, 3)
+                    step = 1 if (ma, fail_first) == (1, 0) else chk.pick(13, 3)
                     if chk.quick and base == 9 and hidden:
                         step *= 3
                     for k in range(0, size + 1, step):
